@@ -16,10 +16,15 @@ pub fn exec(op: &str, args: &[&str]) -> String {
             let (rx, ry) = (x.to_ref(), y.to_ref());
             let mx = std::cmp::max(&x, &y);
             let mn = std::cmp::min(&x, &y);
-            format!("E={};NE={};LT={};LE={};GT={};GE={};CMP={};REFEQ={};REFCMP={};PCMP={};MAX={};MIN={}",
+            // derived reference views: negated views compare like the negated values, an abs view equals the owned abs
+            let (nx, ny) = (-x.clone(), -y.clone());
+            let (ax, ay) = (x.abs(), y.abs());
+            format!("E={};NE={};LT={};LE={};GT={};GE={};CMP={};REFEQ={};REFCMP={};PCMP={};MAX={};MIN={};NEGEQ={};NEGCMP={};ABSSELF={}{}",
                 b(x == y), b(x != y), b(x < y), b(x <= y), b(x > y), b(x >= y), oc(x.cmp(&y)),
                 b(rx == ry), oc(rx.cmp(&ry)), oc(x.partial_cmp(&y).unwrap()),
-                if std::ptr::eq(mx, &x) { "a" } else { "b" }, if std::ptr::eq(mn, &x) { "a" } else { "b" })
+                if std::ptr::eq(mx, &x) { "a" } else { "b" }, if std::ptr::eq(mn, &x) { "a" } else { "b" },
+                b(-rx == ny.to_ref() && nx.to_ref() == -ry), oc((-rx).cmp(&-ry)),
+                b(rx.abs() == ax.to_ref() && ax.to_ref() == rx.abs()), b(ry.abs() == ay.to_ref() && ay.to_ref() == ry.abs()))
         }
         "sort" => {
             let mut xs: Vec<BigDecimal> = args.iter().map(|s| parse_dec(s).expect("x")).collect();
